@@ -231,7 +231,9 @@ class NInterp(sym.Interp):
         if name in LIST_PASS or name in ("row_iter", "column_iter", "column", "row", "set_column", "set_row", "enumerate", "skip", "take", "rev",
                                           "zip", "map", "len", "ncols", "nrows", "collect", "push", "norm", "norm_squared", "column_iter_mut",
                                           "row_iter_mut", "fill", "dot", "fold", "sum", "scale", "component_mul", "clone_owned", "into_owned", "back", "front",
-                                          "push_back", "pop_front", "clear", "is_empty", "clone", "copy_from", "range", "zip_map", "for_each"):
+                                          "push_back", "pop_front", "clear", "is_empty", "clone", "copy_from", "range", "zip_map", "for_each") \
+                and not (name in ("map", "take", "clone", "zip") and ("option::Option" in d or "result::Result" in d)):
+            # (Option / Result combinators are the base interpreter's: evaluating the receiver here as well would evaluate a user call twice)
             recv = self.ev(n["recv"])
             r = self.container_method(n, name, recv)
             if r is not NotImplemented:
